@@ -12,6 +12,34 @@ Inductive sx :=
 | SY (s : string)          (* bare symbol                       *)
 | SL (l : list sx).
 
+(* structural equality of observations (used by the vm_compute cross-check of the extraction) *)
+(* m * 2^e with m reduced to an odd mantissa (the wire format prints it that way) *)
+Fixpoint odd_form (m : positive) (e : Z) : positive * Z :=
+  match m with xO m' => odd_form m' (e + 1)%Z | _ => (m, e) end.
+Definition outrep_eqb (a b : outrep) : bool :=
+  match a, b with
+  | ONan, ONan => true
+  | OInf s, OInf t | OZero s, OZero t => Bool.eqb s t
+  | OFin s m e, OFin t n f =>
+    let '(m', e') := odd_form m e in let '(n', f') := odd_form n f in
+    Bool.eqb s t && Pos.eqb m' n' && Z.eqb e' f'
+  | _, _ => false
+  end.
+Fixpoint sx_eqb (a b : sx) : bool :=
+  match a, b with
+  | SN n, SN m => N.eqb n m
+  | SF x, SF y => outrep_eqb x y
+  | SS s, SS t | SY s, SY t => String.eqb s t
+  | SL l, SL m =>
+    (fix go (l m : list sx) : bool :=
+       match l, m with
+       | [], [] => true
+       | x :: l', y :: m' => sx_eqb x y && go l' m'
+       | _, _ => false
+       end) l m
+  | _, _ => false
+  end.
+
 Definition sym (s : string) (x : sx) : bool :=
   match x with SY t => String.eqb s t | _ => false end.
 
